@@ -163,7 +163,34 @@ fn build_at(runs: &[(u8, usize, usize)], o0: usize, n0: usize) -> Vec<Call> {
     v
 }
 
+/// thorough only, implementation only: the three grouping entry points agree on a diff whose f32
+/// ratio rounds to 1.0 although it contains a change (2^23 + 1 vs 2^23 lines)
+fn huge_grouping_case(ctx: &mut Ctx) {
+    let n = (1usize << 23) + 1;
+    let old: String = "x\n".repeat(n);
+    let new: String = "x\n".repeat(n - 1);
+    let req = "group 1 | <TextDiff of 2^23+1 identical lines vs 2^23: one deletion, ratio rounds to 1.0>".to_string();
+    let r = std::panic::catch_unwind(|| {
+        let diff = similar::TextDiff::from_lines(&old[..], &new[..]);
+        let a = diff.grouped_ops(1);
+        let b = group_diff_ops(diff.ops().to_vec(), 1);
+        (a == b, b.len(), diff.ops().len())
+    });
+    ctx.count("group.huge_ratio_rounding_case");
+    match r {
+        Ok((same, groups, _)) => {
+            if !same || groups == 0 {
+                ctx.violation("C12", &req, format!("TextDiff::grouped_ops(1) differs from group_diff_ops(ops, 1) ({} groups expected)", groups));
+            }
+        }
+        Err(_) => ctx.violation("C12", &req, "grouping a large diff panicked".to_string()),
+    }
+}
+
 pub fn suite_group(ctx: &mut Ctx) {
+    if ctx.tier == Tier::Thorough && ctx.take() {
+        huge_grouping_case(ctx);
+    }
     let (max_n, max_changes, nrand) = match ctx.tier {
         Tier::Quick => (2, 2, 3000),
         Tier::Thorough => (4, 3, 60000),
